@@ -61,9 +61,13 @@ class Stats(object):
         self.nt_hashes = set()
         self.samples = []
         self.budget_skipped = 0
+        self.recent = []          # the last cases executed in this process (for history-dependent failures)
 
     def record(self, case, ctx, outcome):
         self.evaluations += 1
+        self.recent.append(case)
+        if len(self.recent) > 40:
+            self.recent.pop(0)
         if outcome == "ok":
             self.ok += 1
         for l in set(ctx.labels):
@@ -109,6 +113,7 @@ def search(pid, subname, tier, shard, nshards, seed, out, known):
         except Violation as v:
             stats.record(case, ctx, "violation")
             state["last"] = (case, v)
+            state["history"] = list(stats.recent)
             raise
 
     if sc.enumerate_cases is not None:
@@ -157,6 +162,15 @@ def search(pid, subname, tier, shard, nshards, seed, out, known):
                 if isinstance(e, KeyboardInterrupt):
                     raise
                 last = state.get("last")
+                if last is not None and type(e).__name__ in ("Flaky", "FlakyFailure"):
+                    # the same case failed once and passed when re-run: the code under test carries state from
+                    # one call to the next.  That is a violation of the property on the recorded HISTORY of cases
+                    # (replayed in order by --replay), not a harness problem.
+                    case, vv = last
+                    violations.append({"tag": vv.tag, "msg": "(history-dependent: fails only after the preceding cases) " + vv.msg,
+                                       "details": _js(vv.details), "case": case, "history": state.get("history", [case])})
+                    ignore.add(vv.tag)
+                    continue
                 harness_error = "%s: %s\n%s" % (type(e).__name__, e, traceback.format_exc())
                 if last is not None:
                     harness_error += "\n(last violating case: %s / %s)" % (last[1], core.canon(last[0])[:2000])
@@ -182,10 +196,16 @@ def _js(o):
         return repr(o)
 
 
-def replay_case(pid, subname, case, tier="quick", known=(), ignore=()):
-    """Plain regression run of one case (no Hypothesis). Returns None or a violation dict."""
+def replay_case(pid, subname, case, tier="quick", known=(), ignore=(), history=None):
+    """Plain regression run of one case (no Hypothesis). Returns None or a violation dict.
+    ``history``: cases to run first, in order, in the same process (for history-dependent failures)."""
     mod = core.load_prop(pid)
     sc = [s for s in mod.SUBCHECKS if s.name == subname][0]
+    for h in (history or [])[:-1]:
+        try:
+            run_case(sc, h, Ctx(tier=tier, active_known=known, ignore_tags=ignore))
+        except (Skip, Excluded, Violation):
+            pass
     ctx = Ctx(tier=tier, active_known=known, ignore_tags=ignore)
     try:
         run_case(sc, case, ctx)
